@@ -1074,6 +1074,7 @@ func (g *Gen) backEdge(b *ssa.BasicBlock, succIdx int, h *ssa.BasicBlock, st *St
 		g.oblige(fmt.Sprintf("%s/loop%d-decreases@b%d", shortKey(g.key), li.ord, b.Index), "decreases", []string{"TERM"}, guard, lexLess(after, li.decrAt), "loop counter approaches the loop bound (synthesised variant)", firstPos(h))
 	} else {
 		g.stats.Abstractions["loop-without-variant"]++
+		g.stats.Abstractions[fmt.Sprintf("loop-without-variant:%s/loop%d", shortKey(g.key), li.ord)]++
 	}
 	// loop frame (checked version of the assumption made at the head)
 	if !li.allHav {
